@@ -640,6 +640,10 @@ mod emu {
         Some(hull)
     }
 }
+thread_local! {
+    /// set by judge_mrr around the report of a violation that matches the recorded minimum_rotated_rect finding
+    static KNOWN_MRR: std::cell::Cell<bool> = const { std::cell::Cell::new(false) };
+}
 impl<'a, T: Sc> Cx<'a, T> {
     fn viol(&self, sh: &mut Shard, check: &str, site: &str, expected: String, got: String, ring: Value) {
         // graham_hull(.., true) is not named by the statement of C08 (it speaks of the quick-hull and Graham-scan
@@ -659,10 +663,16 @@ impl<'a, T: Sc> Cx<'a, T> {
         } else {
             None
         };
-        let cls = if !self.regime.is_empty() && check.starts_with("hull.") && emulated == Some(true) { "qhull_farthest_point_rounds" } else { "-" };
+        let cls = if !self.regime.is_empty() && check.starts_with("hull.") && emulated == Some(true) {
+            "qhull_farthest_point_rounds"
+        } else if check == "mrr.contains" && KNOWN_MRR.with(|k| k.get()) {
+            "mrr_rotates_about_centroid_of_thin_hull"
+        } else {
+            "-"
+        };
         let sig = format!("{check}|{site}|{cls}");
         sh.class(&format!("viol:{check}:{}", T::NAME));
-        if !self.verbose && (sh.viol_sigs.get(&sig).copied().unwrap_or(0) >= 3 || sh.violations.len() >= 60) {
+        if !self.verbose && (sh.viol_sigs.get(&sig).copied().unwrap_or(0) >= 3 || (cls != "-" && sh.violations.len() >= 60)) {
             // the Shard keeps only the first 3 details per signature (60 in total): skip building one
             sh.violation(&sig, Value::Null);
             return;
@@ -1140,7 +1150,23 @@ fn judge_mrr<T: Sc>(sh: &mut Shard, cx: &Cx<T>, res: Result<Option<Polygon<T>>, 
     }
     sh.maximum(&format!("mrr.outside/(u*E):{tn}"), out / unit);
     if out > K_IN * unit {
-        cx.viol(sh, "mrr.contains", site, format!("every input coordinate within {K_IN}*u*E = {:e} of the rectangle", K_IN * unit), format!("{:?} is outside by {:e} ({} u*E)", worst, out, out / unit), rj.clone());
+        // known finding (minimum_rotated_rect rotates about the hull's CENTROID): for a hull thinner than 2^-30 of its
+        // length the centroid is noise far from the input, and rotating about a far point amplifies the rounding of the
+        // angle. Attributed only to such hulls and only up to 2^20*u*E; anything larger, or on a hull with body, is not it.
+        let h = &inp.refh;
+        let thin = h.len() >= 3 && {
+            let o = h[0];
+            let a2: i128 = (1..h.len() - 1).map(|i| (h[i].0 - o.0) as i128 * (h[i + 1].1 - o.1) as i128 - (h[i].1 - o.1) as i128 * (h[i + 1].0 - o.0) as i128).sum::<i128>().abs();
+            let ext = h.iter().map(|p| ((p.0 - o.0) as f64).hypot((p.1 - o.1) as f64)).fold(0.0, f64::max);
+            (a2 as f64) * 1073741824.0 < ext * ext
+        };
+        let known = thin && out <= 1048576.0 * unit;
+        let site_k = if known { "minimum_rotated_rect(thin hull)" } else { site };
+        if known {
+            KNOWN_MRR.with(|k| k.set(true));
+        }
+        cx.viol(sh, "mrr.contains", site_k, format!("every input coordinate within {K_IN}*u*E = {:e} of the rectangle", K_IN * unit), format!("{:?} is outside by {:e} ({} u*E)", worst, out, out / unit), rj.clone());
+        KNOWN_MRR.with(|k| k.set(false));
     }
     // area against the axis-aligned bounding rectangle and against the true minimum
     let (x0, x1) = (inp.set.iter().map(|p| p.0).min().unwrap(), inp.set.iter().map(|p| p.0).max().unwrap());
